@@ -713,6 +713,9 @@ fn random_case<const L: usize>(c: &Case, rep: &mut Rep) {
         }
     }
 }
+pub fn c_random_pub(c: &Case, rep: &mut Rep) {
+    c_random(c, rep)
+}
 fn c_random(c: &Case, rep: &mut Rep) {
     dispatch!(c.w[0], [1, 2, 3, 4, 8], random_case(c, rep));
     // ConstMontyForm::random: retrieved value < modulus, equals random_mod on the same stream
